@@ -556,7 +556,7 @@ def float_oracle(shape, model, tbl, xn, yn, model_shape, method='center', factor
                 setattr(m, p, row[p])
         x0 = float(getattr(m, xn).value)
         y0 = float(getattr(m, yn).value)
-        sh = model_shape
+        sh = model_shape(m) if callable(model_shape) else model_shape
         lo = (math.ceil(Fraction(y0) - Fraction(sh[0], 2)), math.ceil(Fraction(x0) - Fraction(sh[1], 2)))
         ys = [y for y in range(ny) if lo[0] <= y < lo[0] + sh[0]]
         xs = [x for x in range(nx) if lo[1] <= x < lo[1] + sh[1]]
@@ -580,7 +580,49 @@ def close(a, b, mag, nterms):
     return a.shape == b.shape and bool(np.all(np.abs(a - b) <= tol))
 
 
+def bbox_shape_oracle(m, factor=None):
+    """window (ny, nx) that make_model_image must use for model m when no model_shape is given:
+    the extent of the model's bounding box along y and along x (looked up BY INPUT NAME), rounded up;
+    scaled by the factor when (and only when) the model's bounding_box accepts one."""
+    bb = m.bounding_box
+    ni = bb.named_intervals
+    (xlo, xhi), (ylo, yhi) = (ni['x'].lower, ni['x'].upper), (ni['y'].lower, ni['y'].upper)
+    if factor is not None:
+        try:
+            raw = m.bounding_box(factor=factor)
+        except NotImplementedError:
+            raw = None                                  # fixed bounding box: the factor is ignored
+        if raw is not None:
+            # astropy's Gaussian2D: half-widths proportional to the factor (default 5.5)
+            cy, cx, hy, hx = (ylo + yhi) / 2, (xlo + xhi) / 2, (yhi - ylo) / 2, (xhi - xlo) / 2
+            k = factor / 5.5
+            (ylo, yhi), (xlo, xhi) = (cy - k * hy, cy + k * hy), (cx - k * hx, cx + k * hx)
+            assert abs((raw[0][1] - raw[0][0]) - (yhi - ylo)) < 1e-9 * max(1, abs(yhi - ylo)), 'bbox oracle'
+            assert abs((raw[1][1] - raw[1][0]) - (xhi - xlo)) < 1e-9 * max(1, abs(xhi - xlo)), 'bbox oracle'
+    return (int(math.ceil(yhi - ylo)), int(math.ceil(xhi - xlo)))
+
+
 def _support_model(which):
+    if which in ('gauss-rot', 'gpsf-rot', 'gprf-aniso', 'image-nonsq', 'compound-bbox', 'cprf', 'moffat'):
+        from astropy.modeling.models import Const2D, Gaussian2D
+        from photutils.psf import CircularGaussianPRF, GaussianPRF, GaussianPSF, ImagePSF, MoffatPSF
+        if which == 'gauss-rot':        # accepts a factor; rotated, non-square box
+            return Gaussian2D(1, 0, 0, 0.9, 0.4, 0.5), 'x_mean', 'y_mean', 'amplitude'
+        if which == 'gpsf-rot':         # fixed box, non-square, rotated
+            return GaussianPSF(x_fwhm=0.8, y_fwhm=1.7, theta=30.0), 'x_0', 'y_0', 'flux'
+        if which == 'gprf-aniso':       # fixed box, non-square
+            return GaussianPRF(x_fwhm=1.9, y_fwhm=0.7, theta=0.0), 'x_0', 'y_0', 'flux'
+        if which == 'image-nonsq':      # fixed box from a non-square array
+            yy, xx = np.mgrid[-2:3, -4:5]
+            kern = np.exp(-(xx ** 2 / 6.0 + yy ** 2 / 2.0))
+            return ImagePSF(kern / kern.sum()), 'x_0', 'y_0', 'flux'
+        if which == 'cprf':
+            return CircularGaussianPRF(fwhm=1.1), 'x_0', 'y_0', 'flux'
+        if which == 'moffat':
+            return MoffatPSF(alpha=0.6, beta=4.5), 'x_0', 'y_0', 'flux'
+        m = Gaussian2D(1, 0, 0, 1.1, 1.7, 0.0) + Const2D(0.25)       # user-set fixed box, non-square
+        m.bounding_box = ((-2.2, 2.5), (-3.6, 3.1))
+        return m, 'x_mean_0', 'y_mean_0', 'amplitude_0'
     from astropy.modeling.models import Const2D, Gaussian2D
     from photutils.psf import CircularGaussianPRF, ImagePSF
     if which.startswith('gauss'):
@@ -602,7 +644,10 @@ def support_one(detail):
     from astropy.table import QTable, Table
     from photutils.datasets import make_model_image
     which, method, factor = detail['model'], detail['method'], detail['factor']
-    (ny, nx), sh = detail['shape'], tuple(detail['model_shape'])
+    (ny, nx) = detail['shape']
+    bbox_window = detail.get('window') == 'bbox'
+    bf = detail.get('bbox_factor')
+    sh = (lambda m: bbox_shape_oracle(m, bf)) if bbox_window else tuple(detail['model_shape'])
     model, xn, yn, fl = _support_model(which)
     ref_model = _support_model(which)[0]                 # never handed to the code under test
     unit = u.Jy if which.endswith('unit') else None
@@ -614,6 +659,8 @@ def support_one(detail):
         tbl[yn] = np.array([detail['y'][i] for i in order])
         fls = np.array([detail['flux'][i] for i in order])
         tbl[fl] = fls * unit if unit is not None else fls
+        for pname, vals in (detail.get('extra') or {}).items():
+            tbl[pname] = np.array([vals[i] for i in order])
         if detail['local_bkg'] is not None:
             bk = np.array([detail['local_bkg'][i] for i in order])
             tbl['local_bkg'] = bk * unit if unit is not None else bk
@@ -627,7 +674,11 @@ def support_one(detail):
     fails = []
     tbl = table(range(nrow))
     before = snap(model, tbl)
-    kw = dict(model_shape=sh, x_name=xn, y_name=yn, discretize_method=method, discretize_oversample=factor)
+    kw = dict(x_name=xn, y_name=yn, discretize_method=method, discretize_oversample=factor)
+    if bbox_window:
+        kw['bbox_factor'] = bf
+    else:
+        kw['model_shape'] = sh
     try:
         with warnings.catch_warnings():
             warnings.simplefilter('ignore')
@@ -690,6 +741,46 @@ def support_models(ctx, n):
         ctx.count_case(['support', which, method, ny, nx, xs, ys], True)
         for sig, what in support_one(detail):
             ctx.violation(sig, what, detail)
+
+
+WINDOW_MODELS = {   # kind -> per-row shape parameters that may vary from row to row
+    'gauss-rot': {'x_stddev': (0.4, 1.2), 'y_stddev': (0.3, 0.9)},
+    'gpsf-rot': {'x_fwhm': (0.6, 1.6), 'y_fwhm': (0.6, 2.2)},
+    'gprf-aniso': {'x_fwhm': (0.6, 2.2), 'y_fwhm': (0.6, 1.4)},
+    'image-nonsq': {}, 'compound-bbox': {}, 'cprf': {'fwhm': (0.8, 2.0)}, 'moffat': {'alpha': (0.4, 0.9)},
+}
+
+
+def support_windows(ctx, n):
+    """window-source axis: no model_shape at all, the window comes from the model's bounding box (per row,
+    from the row's parameters) for bbox_factor in {None, several}; models with square / non-square,
+    factor-accepting / fixed, analytic / image / user-set boxes."""
+    rng = ctx.rng
+    kinds = sorted(WINDOW_MODELS)
+    for it in range(n):
+        which = kinds[it % len(kinds)]
+        ny, nx = rng.randint(4, 14), rng.randint(4, 14)
+        nrow = rng.randint(1, 5)
+        xs = [rng.uniform(-2, nx + 2) for _ in range(nrow)]
+        ys = [rng.uniform(-2, ny + 2) for _ in range(nrow)]
+        if rng.random() < 0.3:
+            xs[0] = -60.0
+        extra = {}
+        for pname, (lo, hi) in WINDOW_MODELS[which].items():
+            if rng.random() < 0.7:
+                extra[pname] = [rng.uniform(lo, hi) for _ in range(nrow)]
+        p = list(range(nrow))
+        rng.shuffle(p)
+        bf = [None, 1.0, 2.0, 3.5, 5.5, 7][(it // len(kinds) + it) % 6]
+        detail = {'support': 'models', 'model': which, 'shape': [ny, nx], 'window': 'bbox', 'bbox_factor': bf,
+                  'x': xs, 'y': ys, 'flux': [rng.uniform(0.5, 50) for _ in range(nrow)], 'extra': extra,
+                  'local_bkg': [rng.uniform(-1, 1) for _ in range(nrow)] if rng.random() < 0.5 else None,
+                  'method': rng.choice(['center', 'center', 'oversample']), 'factor': 3, 'perm': p}
+        ctx.support(f'support:window-bbox:{which}:factor={bf}')
+        ctx.count_case(['support-window', which, bf, ny, nx, xs, ys], True)
+        for sig, what in support_one(detail):
+            ctx.violation(sig.replace('support:make_model_image:', 'support:make_model_image:bbox-window:'), what,
+                          detail)
 
 
 def residual_callforms(phot, data, use_unit, psf_shape, inc, mimg):
@@ -838,9 +929,8 @@ def support_psfphot(ctx, n):
                     tb['flux'] = np.asarray(getattr(rt['flux_fit'], 'value', rt['flux_fit']), float)
                     if inc:
                         tb['local_bkg'] = np.asarray(getattr(rt['local_bkg'], 'value', rt['local_bkg']), float)
-                    if psf_shape is None:
-                        continue             # bounding-box windows: covered by the exact cases
-                    sh = (psf_shape, psf_shape) if isinstance(psf_shape, int) else psf_shape
+                    sh = bbox_shape_oracle if psf_shape is None else \
+                        ((psf_shape, psf_shape) if isinstance(psf_shape, int) else psf_shape)
                     if repr(psf.parameters.tolist()) != repr(psf_ref.parameters.tolist()) or \
                             [str(getattr(psf, pn).unit) for pn in psf.param_names] != \
                             [str(getattr(psf_ref, pn).unit) for pn in psf_ref.param_names]:
@@ -945,11 +1035,12 @@ def history_run(detail, on_request=None):
                 cf = residual_callforms(phot, data, use_unit, psf_shape, inc, mimg)
                 if cf:
                     return (cf[0].replace('support:psfphot:', 'support:psfphot-history:'), cf[1], extra), done
-                if psf_shape is not None:
+                if True:
                     tb = tb0.copy()
                     if inc:
                         tb['local_bkg'] = _arr(res['local_bkg'])
-                    sh = (psf_shape, psf_shape) if isinstance(psf_shape, int) else tuple(psf_shape)
+                    sh = bbox_shape_oracle if psf_shape is None else \
+                        ((psf_shape, psf_shape) if isinstance(psf_shape, int) else tuple(psf_shape))
                     want, mag = float_oracle((ny, nx), psf_ref, tb, 'x_0', 'y_0', sh)
                     if not close(_arr(mimg), want, mag, len(tb)):
                         return ('support:psfphot-history:superposition', 'model image is not the superposition of '
@@ -1015,6 +1106,159 @@ def support_psfphot_history(ctx, n):
             ctx.count_case(['psfphot-history', kind, k, detail['history'][k]['x'], str(psf_shape), inc], True)
         fail, done = history_run(detail, on_request)
         ctx.stat('psfphot-history', f'{kind}:images_fitted={done}')
+        if fail:
+            ctx.violation(fail[0], fail[1], dict(detail, **fail[2]))
+
+
+FREE_MODELS = {    # kind -> (extra free parameters, (lo, hi) of the true per-source values)
+    'cprf-fwhm': (['fwhm'], (2.2, 4.6)),
+    'gprf-widths': (['x_fwhm', 'y_fwhm'], (2.2, 4.4)),
+    'moffat-alpha': (['alpha'], (2.2, 4.2)),
+}
+
+
+def _free_model(which):
+    from photutils.psf import CircularGaussianPRF, GaussianPRF, MoffatPSF
+    if which == 'cprf-fwhm':
+        return CircularGaussianPRF(fwhm=3.0)
+    if which == 'gprf-widths':
+        return GaussianPRF(x_fwhm=3.0, y_fwhm=3.0)
+    return MoffatPSF(alpha=3.0, beta=2.5)
+
+
+def free_run(detail, on_request=None):
+    """PSF photometry with a PSF model that has free parameters beyond x / y / flux, on noise-free scenes whose
+    sources have DIFFERENT widths; one instance re-used over the images of the history.  For each request
+    (psf_shape None = per-source bounding-box window, or explicit; include_localbkg): model image ==
+    superposition of the public results table INCLUDING every fitted extra parameter column, residual ==
+    data - model image bitwise, and (when the fit recovered the true parameters and the window is the
+    bounding box) residual ~ 0.  Returns (failure or None, images fitted)."""
+    from astropy.table import Table
+    from photutils.detection import DAOStarFinder
+    from photutils.psf import IterativePSFPhotometry, PSFPhotometry, SourceGrouper
+    kind, which = detail['kind'], detail['model']
+    extras = FREE_MODELS[which][0]
+    ref = _free_model(which)                                # never handed to the code under test
+    psf = _free_model(which)
+    for pn in extras:
+        getattr(psf, pn).fixed = False
+    if kind == 'psfphot':
+        phot = PSFPhotometry(psf, (11, 11), aperture_radius=5)
+    else:
+        phot = IterativePSFPhotometry(psf, (11, 11), finder=DAOStarFinder(5.0, 3.0), aperture_radius=5,
+                                      grouper=SourceGrouper(4.0) if kind == 'iter-all' else None, mode=kind[5:])
+    done = 0
+    for k, step in enumerate(detail['history']):
+        ny, nx = step['shape']
+        truth = Table({'x_0': step['x'], 'y_0': step['y'], 'flux': step['flux']})
+        for pn in extras:
+            truth[pn] = step[pn]
+        data, _ = float_oracle((ny, nx), ref, truth, 'x_0', 'y_0', bbox_shape_oracle)
+        ninit = step['n_init']
+        init = Table({'x': step['x_init'], 'y': step['y_init'], 'flux': step['flux_init']})
+        if step.get('bkg_init') is not None:
+            init['local_bkg'] = step['bkg_init']
+        with warnings.catch_warnings():
+            warnings.simplefilter('ignore')
+            try:
+                res = phot(data, init_params=init)
+            except Exception:  # noqa: BLE001  (fitting is C12's subject)
+                return None, done
+            if res is None:
+                return None, done
+            done += 1
+            tb0 = Table()
+            tb0['x_0'], tb0['y_0'], tb0['flux'] = _arr(res['x_fit']), _arr(res['y_fit']), _arr(res['flux_fit'])
+            for pn in ref.param_names:
+                if pn not in ('x_0', 'y_0', 'flux') and pn + '_fit' in res.colnames:
+                    tb0[pn] = _arr(res[pn + '_fit'])
+            if not np.all(np.isfinite(np.array([list(r) for r in tb0]))):
+                continue
+            missing = [pn for pn in extras if pn not in tb0.colnames]
+            if missing:
+                return ('support:psfphot-free:results-table', f'no {missing[0]}_fit column in the results table '
+                        'although the parameter was fitted', {'failing_image': k}), done
+            # did the fit recover the truth (same number of sources, every parameter to 1e-4 relative)?
+            recovered = len(tb0) == len(truth)
+            if recovered:
+                order = [int(np.argmin((tb0['x_0'] - x) ** 2 + (tb0['y_0'] - y) ** 2))
+                         for x, y in zip(step['x'], step['y'])]
+                recovered = sorted(order) == list(range(len(truth))) and all(
+                    abs(tb0[c][j] - truth[c][i]) <= 1e-4 * max(1.0, abs(truth[c][i]))
+                    for i, j in enumerate(order) for c in truth.colnames)
+            for psf_shape, inc in step['requests']:
+                psf_shape = tuple(psf_shape) if isinstance(psf_shape, list) else psf_shape
+                extra = {'failing_image': k, 'psf_shape': psf_shape, 'include_localbkg': inc}
+                try:
+                    mimg = phot.make_model_image((ny, nx), psf_shape=psf_shape, include_localbkg=inc)
+                    rimg = phot.make_residual_image(data, psf_shape=psf_shape, include_localbkg=inc)
+                except Exception as e:  # noqa: BLE001
+                    return ('support:psfphot-free:raises:' + type(e).__name__,
+                            'model/residual image raised: ' + str(e)[:120], extra), done
+                if on_request:
+                    on_request(k, psf_shape, inc, recovered)
+                if not _same(rimg, data - mimg):
+                    return ('support:psfphot-free:residual', 'residual image != data - model image', extra), done
+                tb = tb0.copy()
+                if inc:
+                    tb['local_bkg'] = _arr(res['local_bkg'])
+                sh = bbox_shape_oracle if psf_shape is None else \
+                    ((psf_shape, psf_shape) if isinstance(psf_shape, int) else tuple(psf_shape))
+                want, mag = float_oracle((ny, nx), ref, tb, 'x_0', 'y_0', sh)
+                if not close(_arr(mimg), want, mag, len(tb)):
+                    return ('support:psfphot-free:superposition', 'model image is not the superposition of the '
+                            'fitted sources with THEIR fitted parameters (every *_fit column of the results table) '
+                            'on ' + ('their bounding-box windows' if psf_shape is None else 'the psf_shape window'),
+                            dict(extra, max_abs_diff=float(np.max(np.abs(_arr(mimg) - want))))), done
+                if recovered and psf_shape is None and not inc and which != 'moffat-alpha':
+                    if float(np.max(np.abs(_arr(rimg)))) > 1e-3 * float(np.max(data)):
+                        return ('support:psfphot-free:residual-not-zero', 'the fit recovered the true parameters of a '
+                                'noise-free scene but the residual image is not ~ 0',
+                                dict(extra, max_abs_residual=float(np.max(np.abs(_arr(rimg)))),
+                                     peak=float(np.max(data)))), done
+    return None, done
+
+
+def support_psfphot_free(ctx, n):
+    rng = ctx.rng
+    kinds = ['psfphot', 'iter-new', 'iter-all']
+    models = sorted(FREE_MODELS)
+    for it in range(n):
+        kind, which = kinds[it % 3], models[(it // 3 + it) % 3]
+        extras, (lo, hi) = FREE_MODELS[which]
+        hist = []
+        detail = {'support': 'psfphot-free', 'kind': kind, 'model': which, 'history': hist}
+        for k in range(rng.choice([1, 2])):
+            ny, nx = rng.randint(36, 44), rng.randint(36, 44)
+            nsrc = rng.randint(2, 3)
+            # well separated sources (one per quadrant-ish cell), different widths
+            cells = [(0.27, 0.27), (0.72, 0.35), (0.45, 0.75)]
+            xs = [cx * nx + rng.uniform(-1.5, 1.5) for cx, _ in cells[:nsrc]]
+            ys = [cy * ny + rng.uniform(-1.5, 1.5) for _, cy in cells[:nsrc]]
+            fl = [rng.uniform(600, 1500) for _ in range(nsrc)]
+            ninit = nsrc
+            if kind != 'psfphot' and (k + it // 3) % 2 == 0:
+                ninit = nsrc - 1                      # the last source is left for the finder (2 fit iterations)
+            step = {'shape': [ny, nx], 'x': xs, 'y': ys, 'flux': fl, 'n_init': ninit,
+                    'x_init': [x + rng.uniform(-0.2, 0.2) for x in xs[:ninit]],
+                    'y_init': [y + rng.uniform(-0.2, 0.2) for y in ys[:ninit]],
+                    'flux_init': [f * rng.uniform(0.9, 1.1) for f in fl[:ninit]],
+                    'bkg_init': [rng.uniform(0.01, 0.05) for _ in range(ninit)] if rng.random() < 0.5 else None}
+            for pn in extras:
+                step[pn] = [rng.uniform(lo, hi) for _ in range(nsrc)]
+            reqs = [(None, False), (None, True), (rng.choice([(9, 9), (8, 12), 11]), rng.random() < 0.5),
+                    (None, False)]
+            rng.shuffle(reqs)
+            step['requests'] = [[list(a) if isinstance(a, tuple) else a, b] for a, b in reqs]
+            hist.append(step)
+
+        def on_request(k, psf_shape, inc, recovered, kind=kind, which=which):
+            ctx.support(f'psfphot-free:{kind}:{which}')
+            ctx.stat('psfphot-free', f'{which}:psf_shape={"None" if psf_shape is None else "explicit"}:'
+                     f'truth_recovered={recovered}')
+            ctx.count_case(['psfphot-free', kind, which, it, k, str(psf_shape), inc], True)
+        fail, done = free_run(detail, on_request)
+        ctx.stat('psfphot-free', f'{kind}:images_fitted={done}')
         if fail:
             ctx.violation(fail[0], fail[1], dict(detail, **fail[2]))
 
@@ -1090,6 +1334,15 @@ def run(ctx):
         '{False, True}, local backgrounds from a localbkg_estimator, from a local_bkg column of init_params, or '
         'none: each must equal data - make_model_image(shape, psf_shape, include_localbkg) bitwise, NDData '
         'meta-data carried over and inputs untouched (support test)',
+        'window source: model_shape=None with bbox_factor in {None, 1, 2, 3.5, 5.5, 7} for models with square / '
+        'non-square, factor-accepting / fixed, analytic / image / user-set bounding boxes and per-row shape '
+        'parameters: window == extent of the bounding box along (y, x) looked up by input name, scaled only when '
+        'the model accepts a factor (support test, rounding bound)',
+        'PSF models with free parameters beyond x / y / flux (CircularGaussianPRF fwhm, GaussianPRF widths, MoffatPSF '
+        'alpha) fitted on noise-free scenes with sources of different widths, PSFPhotometry / Iterative new / all, '
+        'psf_shape None and explicit: model image == superposition of the results table incl. every fitted extra '
+        'column on per-source bounding-box windows, residual == data - model, residual ~ 0 when the truth was '
+        'recovered (support test)',
         'histories: one PSFPhotometry / IterativePSFPhotometry (new, all) instance re-used on 2-3 different images '
         'with model / residual images requested between and after the calls (varying and repeated arguments): '
         'iterative kinds with exactly 1 and with >= 2 fit iterations (maxiters 1 / 3, source left for the finder or '
@@ -1164,13 +1417,22 @@ def run(ctx):
             ctx.violation('correspondence:C18_Model.check_case', 'model and implementation disagree although the '
                           'property holds on this input', detail, found_input=False)
     support_models(ctx, 60 if not thorough else 500)
+    support_windows(ctx, 28 if not thorough else 210)
     support_psf_sim(ctx, 10 if not thorough else 60)
     support_psfphot(ctx, 9 if not thorough else 45)
     support_psfphot_history(ctx, 9 if not thorough else 45)
+    support_psfphot_free(ctx, 9 if not thorough else 54)
 
 
 def replay(obj):
     r = obj['replay']
+    if r.get('support') == 'psfphot-free':
+        fail, done = free_run(r)
+        print('images fitted:', done)
+        if fail:
+            print('FAILS:', fail[0], '-', fail[1], fail[2])
+        print('property holds on this history' if not fail else 'property FAILS on this history')
+        return 0 if not fail else 1
     if r.get('support') == 'psfphot-history':
         fail, done = history_run(r)
         print('images fitted:', done)
